@@ -1,14 +1,17 @@
 //! One module per claimed property.
 use crate::runner::Check;
 pub mod c02;
+pub mod c03;
+pub mod peer;
 pub mod common;
 
 pub fn ids() -> Vec<&'static str> {
-    vec!["C02"]
+    vec!["C02", "C03"]
 }
 pub fn get(id: &str) -> Option<Box<dyn Check>> {
     match id {
         "C02" => Some(Box::new(c02::C02)),
+        "C03" => Some(Box::new(c03::C03)),
         _ => None,
     }
 }
